@@ -355,6 +355,28 @@ theorem sorted_sortNat (l : List Nat) : (sortNat l).Pairwise (· ≤ ·) := by
   | nil => simp [sortNat]
   | cons y rest ih => exact sorted_insertNat y _ ih
 
+/-- after the sort, `dedup` leaves a strictly increasing list -/
+theorem strictSorted_dedupAdj (l : List Nat) (h : l.Pairwise (· ≤ ·)) : (dedupAdj l).Pairwise (· < ·) := by
+  fun_induction dedupAdj l with
+  | case1 => simp
+  | case2 a => simp
+  | case3 a rest ih =>
+    exact ih (List.pairwise_cons.mp h).2
+  | case4 a b rest hab ih =>
+    obtain ⟨h1, h2⟩ := List.pairwise_cons.mp h
+    obtain ⟨h3, _⟩ := List.pairwise_cons.mp h2
+    rw [List.pairwise_cons]
+    refine ⟨?_, ih h2⟩
+    intro y hy
+    rw [mem_dedupAdj] at hy
+    have hab' : a < b := by
+      have := h1 b List.mem_cons_self
+      omega
+    rcases List.mem_cons.mp hy with rfl | hy
+    · exact hab'
+    · have := h3 y hy
+      omega
+
 theorem mem_sortDedup (l : List Nat) (x : Nat) :
     x ∈ dedupAdj (sortNat l) ↔ x ∈ l := by
   rw [mem_dedupAdj, mem_sortNat]
